@@ -733,6 +733,30 @@ def m2_sndscript(ctx: Any, prog: Program) -> None:
 
 
 # ---- M2 vmt -----------------------------------------------------------------------------------------------------------------------------
+    # soundentry_version 2 accompanies every operator_stacks block: Sound.parse_one refuses stacks in a version-1 entry
+    refuses = any(isinstance(n, ast.If) and 'operator_stacks' in ast.unparse(n.test) and any(isinstance(r, ast.Raise) for r in ast.walk(n)) for n in ast.walk(par))
+
+    def lit_writes(word: str) -> List[ast.Call]:
+        return [c for c in walk_no_nested(exp) if isinstance(c, ast.Call) and dotted(c.func) == 'file.write' and any(isinstance(k, ast.Constant) and isinstance(k.value, str) and word in k.value for k in ast.walk(c))]
+    ver_w, stk_w = lit_writes('soundentry_version'), lit_writes('operator_stacks')
+    if not refuses or not stk_w:
+        ctx.shape('C20.M2', False, mod, exp, 'operator_stacks writer / version precondition of the reader not found', func='Sound.export', text='sndscript stacks imply version 2')
+    else:
+        def guard_nodes(n: ast.AST) -> List[ast.AST]:
+            out, cur = [], mod.parents.get(n)
+            while cur is not None and cur is not exp:
+                if isinstance(cur, ast.If):
+                    out.append(cur)
+                cur = mod.parents.get(cur)
+            return out
+        for sw in stk_w:
+            same_call = any(v is sw for v in ver_w)
+            sg = guard_nodes(sw)
+            dominated = any(all(any(g is h for h in sg) for g in guard_nodes(v)) and v.lineno <= sw.lineno for v in ver_w)
+            ctx.check('C20.M2', same_call or dominated, mod, sw, 'Sound.export writes an operator_stacks block on a path that has not written `soundentry_version 2` (the version line is guarded by a different condition): '
+                      'Sound.parse_one raises "Operator stacks used with version less than 2" on that output', func='Sound.export', text='sndscript stacks imply version 2')
+
+
 def m2_vmt(ctx: Any, prog: Program) -> None:
     mod = prog.module('vmt')
     par, exp = mod.func('Material.parse'), mod.func('Material.export')
@@ -914,6 +938,26 @@ def m2_smd(ctx: Any, prog: Program) -> None:
 
 
 # ---- M5 -----------------------------------------------------------------------------------------------------------------------------------
+    # nodes section: the reader resolves a node's parent index against the nodes it has ALREADY read (`Undefined parent bone`), so a node
+    # line may only be written once its parent's line has been written - whatever order self.bones happens to be in
+    node_w = [c for c in ast.walk(exp) if isinstance(c, ast.Call) and dotted(c.func) == 'file.write' and c.args and isinstance(c.args[0], ast.BinOp) and isinstance(c.args[0].left, ast.Constant)
+              and isinstance(c.args[0].left.value, bytes) and c.args[0].left.value.count(b'%i') == 2 and b'"%s"' in c.args[0].left.value]
+    reader_checks = any(isinstance(r, ast.Raise) and 'parent' in ast.unparse(r).casefold() for q_, fs_ in mod.all_funcs().items() if 'parse' in q_ for f in fs_ for r in ast.walk(f))
+    if len(node_w) != 1 or not reader_checks:
+        ctx.shape('C20.M2', False, mod, exp, 'node line writer / parent check of the reader not found', func='Mesh.export', text='smd nodes written parents first')
+    else:
+        nw = node_w[0]
+        tests = []
+        cur = mod.parents.get(nw)
+        while cur is not None and cur is not exp:
+            if isinstance(cur, ast.If) and any(nw is x for b in cur.body for x in ast.walk(b)):
+                tests.append(cur.test)
+            cur = mod.parents.get(cur)
+        parent_known = any(isinstance(c, ast.Compare) and isinstance(c.ops[0], ast.In) and isinstance(c.left, ast.Attribute) and c.left.attr == 'parent' for t in tests for c in ast.walk(t))
+        ctx.check('C20.M2', parent_known, mod, nw, 'Mesh.export writes a node line without first establishing that the parent of the bone has been written (`bone.parent in <indexes assigned so far>`): '
+                  'with a child stored before its parent in Mesh.bones the line names an index that is only defined further down, and parse_smd raises "Undefined parent bone"', func='Mesh.export', text='smd nodes written parents first')
+
+
 def m5_tables(ctx: Any, prog: Program) -> None:
     mod = prog.module('choreo')
     fold = Folder(prog, mod)
@@ -949,6 +993,8 @@ def m5_tables(ctx: Any, prog: Program) -> None:
 
 
 MUTANTS: List[Dict[str, Any]] = [
+    {'id': 'smd_nodes_in_dict_order', 'file': 'smd.py', 'find': "                if not bone.parent or bone.parent in bone_indexes:\n", 'replace': "                if True:\n", 'expect': 'C20.M2'},
+    {'id': 'sndscript_stacks_without_version', 'file': 'sndscript.py', 'find': "        if self.force_v2 or self.stack_start or self.stack_stop or self.stack_update:\n            file.write(\n                '\\t' 'soundentry_version 2\\n'\n", 'replace': "        if self.force_v2:\n            file.write('\\tsoundentry_version 2\\n')\n        if self.force_v2 or self.stack_start or self.stack_stop or self.stack_update:\n            file.write(\n", 'expect': 'C20.M2'},
     {'id': 'cmdseq_strip_find_unchecked', 'file': 'cmdseq.py', 'find': "    if b'\\0' in data:\n        return data[:data.index(b'\\0')].decode('ascii')\n    else:\n        return data.decode('ascii')", 'replace': "    end = data.find(b'\\0')\n    return data[:end].decode('ascii')", 'expect': 'C20.M1'},
     {'id': 'cmdseq_strip_find_checked', 'file': 'cmdseq.py', 'find': "    if b'\\0' in data:\n        return data[:data.index(b'\\0')].decode('ascii')\n    else:\n        return data.decode('ascii')", 'replace': "    end = data.find(b'\\0')\n    if end == -1:\n        return data.decode('ascii')\n    return data[:end].decode('ascii')", 'expect': None},
     {'id': 'cmdseq_strip_partition', 'file': 'cmdseq.py', 'find': "    if b'\\0' in data:\n        return data[:data.index(b'\\0')].decode('ascii')\n    else:\n        return data.decode('ascii')", 'replace': "    return data.partition(b'\\0')[0].decode('ascii')", 'expect': None},
